@@ -31,7 +31,7 @@ FEATS = dict(div=False, ts=False, strftime=False, nulls_order="explicit", setops
              self_join=False,         # same-named columns of two sources collide in aggregation
              stars="single-source",
              derived_order_nolimit=False, outer_derived=False, subq_under_or=False, cross_join_derived=False,
-             lit_left_cmp=False, star_dup_order=False, same_col_const_pair=False, group_derived_expr=False, tvl=True, deep_corr=0.15, derived_setop=0.1,
+             lit_left_cmp=False, star_dup_order=False, same_col_const_pair=False, group_derived_expr=False, tvl=True, deep_corr=0.15, derived_setop=0.1, agg_arith=0.3,
              scalar_subq_max=1)       # two unnested scalar subqueries both expose "_col_0": same-named columns collide in aggregation
 
 T = sqlgen.Table
